@@ -51,7 +51,7 @@ class MemoryFileHandler(abc.FileHandler):
         filename: str | pathlib.PurePosixPath,
         mode: t.Literal["r", "rb", "w", "wb"] = "rb",
     ) -> t.BinaryIO:
-        path = helpers.normalize_pure_path(filename, base=self.subdir)
+        path = self.subdir / helpers.normalize_pure_path(filename)
         if "w" in mode:
             self._data[path] = bytearray()
             return MemoryFile(self._data[path], "w")  # type: ignore[abstract]
